@@ -41,7 +41,14 @@ def _strategy(draw):
     if mode == "both" and T < 8:
         mode = "coarse"
     cls = draw(st.sampled_from(["simple", "simple_spread", "contract", "storage", "storage2", "transport", "exttransport",
-                                "multi"]))
+                                "multi", "plant"]))
+    excluded = 0
+    if cls == "plant":
+        # known finding D59 (open): CHPAsset / Plant document `periodicity` but set-up raises (the periodic joining is
+        # applied to the contract part before the unit-commitment variables are added). Not generated; the listed
+        # replay keeps it visible.
+        excluded = 1
+        cls = "simple"
     if cls in ("transport", "exttransport", "storage2") and nn < 2:
         cx.nodes.append("n1")
     if cls == "simple":
@@ -132,7 +139,7 @@ def _strategy(draw):
         mk[2 * i]["price"] = "pm_hi%d" % i
         mk[2 * i + 1]["price"] = "pm_lo%d" % i
     assets += mk
-    return {"grid": g, "prices": cx.prices, "assets": assets, "mode": mode, "cls": cls}
+    return {"grid": g, "prices": cx.prices, "assets": assets, "mode": mode, "cls": cls, "excluded_known": excluded}
 
 
 def strategy(tier):
